@@ -336,7 +336,10 @@ def _classify(repo, col):
     # the if/elif chain that assigns trainable_inds_in_view
     chain = None
     for n in ast.walk(fi.node):
-        if isinstance(n, ast.If) and any(isinstance(b, ast.Assign) and unparse(b.targets[0]) == "trainable_inds_in_view" for b in n.body):
+        # (the chain whose branches intersect the stored rows with the rows / edges in view, whatever the result is called)
+        if isinstance(n, ast.If) and any(isinstance(b, ast.Assign) and isinstance(b.value, ast.Call) and unparse(b.value.func).endswith("intersect1d")
+                                         and any(isinstance(y, ast.Attribute) and y.attr in ("_nodes_in_view", "_edges_in_view") for y in ast.walk(b.value))
+                                         for b in n.body):
             chain = n
             break
     if chain is None:
